@@ -726,7 +726,7 @@ def r12_parallel_lists(ctx):
             ctx.check('R12.parallel-lists', f'{site(f, c)}', ok, key(f, 'zip|' + '|'.join(ast.unparse(resolved(defs, a))[:40] for a in c.args)),
                       f'{f.name} pairs {ast.unparse(c)[:120]}: one of the parallel lists is re-ordered / cut on its own {shapes}, so a legacy '
                       'document whose list is not in that order converts to other (frequency, value) pairs than it states')
-    ctx.need('R12.parallel-lists', 4)
+    ctx.need('R12.parallel-lists', 1)
 
 
 RULES = [('R2.accumulate', r2b_accumulators), ('R1.pairing', r1_pairing), ('R2.siblings', r2_siblings), ('R3.precision', r3_precision),
